@@ -6,10 +6,10 @@ WT=$1; SUB=$2; ID=$3; PROP=$4
 cd "$WT" || exit 9
 git checkout -q -- src; mkdir -p tests
 cp "out/$SUB/demo.rs" "tests/seed_demo.rs"
-R0=$(cargo test --offline --test seed_demo 2>&1 | grep -E "^test result" | tail -1)
+R0=$(cargo test --offline $FEATURES --test seed_demo 2>&1 | grep -E "^test result" | tail -1)
 git apply "out/$SUB/patch.diff" || { echo "APPLY FAILED"; exit 8; }
 RL=$(cargo test --lib --offline 2>&1 | grep -E "^test result" | tail -1)
-R1=$(cargo test --offline --test seed_demo 2>&1 | grep -E "^test result" | tail -1)
+R1=$(cargo test --offline $FEATURES --test seed_demo 2>&1 | grep -E "^test result" | tail -1)
 git checkout -q -- src; rm -f tests/seed_demo.rs
 echo "pristine demo: $R0"; echo "patched lib:   $RL"; echo "patched demo:  $R1"
 case "$R0" in *"ok."*) ;; *) echo "NOT CONFIRMED (demo fails on pristine)"; exit 1;; esac
@@ -23,7 +23,7 @@ d,i,p,r0,rl,r1=sys.argv[1:7]
 notes=open(d+'/notes.txt').read()
 json.dump({'id':i,'property':p,'needs_to_manifest':notes[:1500],
  'confirmed':{'demo_on_pristine':r0,'lib_tests_with_patch':rl,'demo_with_patch':r1,
- 'how':'scratch worktree of /repo: cargo test --offline --test seed_demo (pristine) ; git apply patch ; cargo test --lib --offline ; cargo test --offline --test seed_demo ; git checkout -- src'}},
+ 'how':'scratch worktree of /repo: cargo test --offline $FEATURES --test seed_demo (pristine) ; git apply patch ; cargo test --lib --offline ; cargo test --offline $FEATURES --test seed_demo ; git checkout -- src'}},
  open(d+'/meta.json','w'),indent=1)
 PY
 echo "CONFIRMED -> $D"
